@@ -226,7 +226,9 @@ class Ctx:
             ctx = self
 
             def body(case):
-                if ctx.out_of_budget():
+                # the budget only stops *generation*; once a failure is being shrunk every execution must be honest,
+                # otherwise Hypothesis sees the final replay pass and reports the case as flaky
+                if state["target"] is None and ctx.out_of_budget():
                     return
                 res = ctx.execute(check, case)
                 ctx._account(sub, case, res)
